@@ -777,7 +777,7 @@ def c09_errors(ctx, schemas=None, prog=None):
                 if tp >= len(ev) or ev[tp][1] != 'TAG':
                     ctx.violation('S-ERR.tag', '%s|%s|tagpos' % (label, vk), 'expected a tag at item %d of the emission, found %s' % (tp, item_text(ev[tp][1:]) if tp < len(ev) else 'nothing'), where)
                     continue
-                changed = ev[:tp] + [('ITEM', 'TAG', Int.const(ev[tp][2].c + 1))] + ev[tp + 1:]
+                changed = ev[:tp] + [('ITEM', 'TAG', Int.const(ev[tp][2].c + 1 if ev[tp][2].c < (1 << 64) - 1 else ev[tp][2].c - 1))] + ev[tp + 1:]
                 removed = ev[:tp] + ev[tp + 1:]
                 for what, stream_ in (('wrong', changed), ('missing', removed)):
                     n += 1
@@ -793,6 +793,8 @@ def c09_errors(ctx, schemas=None, prog=None):
                 pos = (1 if s.get('tag') is not None else 0) + (0 if s.get('index_only') else 1)
                 used = set(x['idx'] for x in s['variants'])
                 bad = max(used) + 1
+                if bad > 0xffffffff:     # an index is a u32: probe with an undeclared one that can be written
+                    bad = min(x for x in range(len(used) + 1) if x not in used)
                 if pos < len(ev) and ev[pos][1] == 'INT':
                     st2 = ev[:pos] + [('ITEM', 'INT', 'u32', Int.const(bad))] + ev[pos + 1:]
                     n += 1
